@@ -271,7 +271,7 @@ impl Check for C19 {
         "C19"
     }
     fn rule(&self) -> String {
-        "case = cache state (no library / stale library built from the previous source generation with an older mtime / fresh library; optionally a leftover lock file or a leftover temp file; with or without scanner.c) x 2-8 loaders (separate processes; 30% several threads of one process) that each perform Loader::load_language_at_path on the same grammar directory with a private TREE_SITTER_LIBDIR and XDG_CACHE_HOME x a SCHEDULE owned by the driver: every loader stops at each protocol step (decided:recompile|fresh, lock:won, lock:lost, compiling, compiled, renamed, unlocking, waited, loading - guarded hook points) and the driver releases one loader at a time in a tape-chosen order; optionally one loader is told to abort() at a tape-chosen step (crash point); afterwards 1-2 late loaders run without pauses. Lock timeout shortened to 1.5 s through the guarded override. Oracles: (1) every loader that reports success returns the marker of the CURRENT sources; (2) no loader fails with a library/symbol error and, whenever the driver looks (after every release), an existing library file dlopens (through a private copy) and carries the old or the new marker; (3) without a crash every loader succeeds; (4) after a crash every late loader succeeds with the current marker within lock timeout + 20 s. evaluations = loader calls. Non-trivial: two loaders between their staleness decision and their load at the same time, or a crash between lock:won and unlocking; distinct by hash(state, schedule).".into()
+        "case = cache state (no library / stale library built from the previous source generation with an older mtime / fresh library; optionally a leftover lock file or a leftover temp file; with or without scanner.c) x 2-8 loaders (separate processes; 30% several threads of one process) that each perform Loader::load_language_at_path on the same grammar directory with a private TREE_SITTER_LIBDIR and XDG_CACHE_HOME x a SCHEDULE owned by the driver: every loader stops at each protocol step (decided:recompile|fresh, lock:won, lock:lost, compiling, compiled, renamed, unlocking, waited, loading - guarded hook points) and the driver releases one loader at a time in a tape-chosen order; optionally one loader is told to abort() at a tape-chosen step (crash point); afterwards 1-2 late loaders run without pauses. Lock timeout shortened to 1.5 s through the guarded override. Oracles: (1) every loader that reports success returns the marker of the CURRENT sources; (2) no loader fails with a library/symbol error and, whenever the driver looks (after every release), an existing library file dlopens (through a private copy) and carries the old or the new marker; (3) without a crash every loader succeeds; (4) after a crash every late loader succeeds with the current marker within lock timeout + 90 s (generous: a loaded machine must not look like a hang). evaluations = loader calls. Non-trivial: two loaders between their staleness decision and their load at the same time, or a crash between lock:won and unlocking; distinct by hash(state, schedule).".into()
     }
     fn cases(&self, tier: Tier) -> u64 {
         match tier {
@@ -284,6 +284,9 @@ impl Check for C19 {
     }
     fn level(&self) -> &'static str {
         "fault_enumeration"
+    }
+    fn watchdog_s(&self) -> u64 {
+        400
     }
     fn floors(&self) -> Vec<(&'static str, f64)> {
         vec![("window:overlap", 0.5), ("crash:inside_lock", 0.10), ("state:stale", 0.2), ("mode:threads", 0.15), ("scanner", 0.2)]
@@ -464,7 +467,7 @@ impl Check for C19 {
                     break;
                 }
                 // only lock waiters left: they report when the lock goes away or their wait times out
-                match rx.recv_timeout(Duration::from_millis(timeout_ms + 20_000)) {
+                match rx.recv_timeout(Duration::from_millis(timeout_ms + 90_000)) {
                     Ok(m) => apply(m, &mut st, &procs, &mut history),
                     Err(_) => {
                         fails.push(("C19:hang:lock_waiter_never_returns".into(), "a loader waiting for the lock neither proceeded nor timed out".into()));
@@ -549,7 +552,7 @@ impl Check for C19 {
         }
         // loaders without pauses: bounded wait for their result
         let t0 = Instant::now();
-        while st.values().any(|s| *s == St::Free) && t0.elapsed() < Duration::from_millis(timeout_ms + 20_000) {
+        while st.values().any(|s| *s == St::Free) && t0.elapsed() < Duration::from_millis(timeout_ms + 90_000) {
             if let Ok(m) = rx.recv_timeout(Duration::from_millis(200)) {
                 apply(m, &mut st, &procs, &mut history);
             }
@@ -575,7 +578,7 @@ impl Check for C19 {
             let mut p = spawn_worker(&exe, &src, 1, &libdir, &cache, true, timeout_ms, 0, &ltx);
             let t0 = Instant::now();
             let mut res: Option<Result<String, String>> = None;
-            while t0.elapsed() < Duration::from_millis(timeout_ms + 20_000) {
+            while t0.elapsed() < Duration::from_millis(timeout_ms + 90_000) {
                 match lrx.recv_timeout(Duration::from_millis(200)) {
                     Ok(Msg { line: Some(l), .. }) => {
                         if let Some(rest) = l.strip_prefix("done 0 ") {
